@@ -93,6 +93,7 @@ type reqRun struct {
 	maxDelay   int
 	holdMs     int
 	noDrops    bool
+	idemGraph  bool
 	variant    int64
 }
 
@@ -262,7 +263,19 @@ func (rr *reqRun) buildFrame(sc *reqScenario, tok string, stream int16, version 
 		}
 		return frame.NewFrame(version, stream, &message.Batch{Type: primitive.BatchTypeLogged, Children: children, Consistency: cl}), "BATCH", true
 	case "graph":
-		// graph requests are not idempotent unless --idempotent-graph is configured (it is not, here)
+		if rr.idemGraph {
+			// with --idempotent-graph a graph request is idempotent; everything else keeps its own verdict, also on a
+			// connection that has carried graph requests
+			if sc.Idem {
+				frm := frame.NewFrame(version, stream, &message.Query{Query: fmt.Sprintf("g.V().has('k','%s')", tok),
+					Options: &message.QueryOptions{Consistency: cl}})
+				frm.SetCustomPayload(map[string][]byte{"graph-source": []byte("g")})
+				return frm, "QUERY", false
+			}
+			return frame.NewFrame(version, stream, &message.Query{Query: fmt.Sprintf(nonIdemStmts[rr.intn(len(nonIdemStmts))], tok),
+				Options: &message.QueryOptions{Consistency: cl}}), "QUERY", false
+		}
+		// graph requests are not idempotent unless --idempotent-graph is configured
 		if sc.Idem {
 			return frame.NewFrame(version, stream, &message.Query{Query: fmt.Sprintf(idemStmts[rr.intn(len(idemStmts))], tok),
 				Options: &message.QueryOptions{Consistency: cl}}), "QUERY", false
@@ -344,6 +357,7 @@ type roundOpts struct {
 	evict           int    // nodes forget a prepared statement after this many executions
 	bigEvery        int    // every n-th plain answer is about 20 KiB
 	burstsForwarded bool   // the bursts consist of forwarded queries only (48..127 per write)
+	idemGraph       bool   // the proxy runs with --idempotent-graph
 	stallDrops      int    // times a node stops reading for a while and then loses its connections, with bulky requests queued for it
 	slowReaders     int    // clients that pipeline thousands of queries and read late
 	nonReaders      int    // ... and never read but hang up
@@ -365,6 +379,7 @@ func runRound(scs []*reqScenario, nodes, numConns, nclients, workers int, out st
 		// every request of this driver uses LOCAL_QUORUM: all non-SELECT requests are re-encoded by the proxy
 		eo.Unsupported, eo.Override = []string{"LOCAL_QUORUM", "EACH_QUORUM"}, "QUORUM"
 	}
+	eo.IdempotentGraph = ro.idemGraph
 	if ro.idleClose {
 		eo.HeartBeat, eo.ConnectTimeout, eo.Idle = 100*time.Millisecond, 250*time.Millisecond, 400*time.Millisecond
 	}
@@ -398,7 +413,7 @@ func runRound(scs []*reqScenario, nodes, numConns, nclients, workers int, out st
 		time.Sleep(150 * time.Millisecond)
 		t.Emit("Ready", "hosts", e.HostKeys(), "numconns", numConns)
 	}
-	rr := &reqRun{e: e, rnd: newRand(salt), maxDelay: maxDelay, holdMs: ro.holdMs, noDrops: ro.noDrops}
+	rr := &reqRun{e: e, rnd: newRand(salt), maxDelay: maxDelay, holdMs: ro.holdMs, noDrops: ro.noDrops, idemGraph: ro.idemGraph}
 	e.C.Script = rr.script
 	e.C.PrepareScript = func(a *fakecql.Attempt) fakecql.Outcome {
 		if v, ok := rr.prepFail.LoadAndDelete(a.Node.IP); ok {
@@ -854,6 +869,7 @@ func init() {
 		restarts := fs.Int("restarts", 0, "random node restarts per round (connections dropped, prepared statements forgotten)")
 		addNode := fs.Bool("addnode", false, "a node joins after the proxy connected")
 		lateAddNode := fs.Bool("lateaddnode", false, "a node joins after the clients' sessions were created")
+		idemGraph := fs.Bool("idemgraph", false, "the proxy runs with the idempotent-graph option")
 		stallDrops := fs.Int("stalldrops", 0, "times a node stops reading for 250 ms and then drops its connections, while clients send bulky requests")
 		slowReaders := fs.Int("slowreaders", 0, "clients that pipeline 2600 queries and start reading 1.8 s later")
 		nonReaders := fs.Int("nonreaders", 0, "clients that pipeline 2600 queries, never read and hang up after 1.5 s")
@@ -929,7 +945,7 @@ func init() {
 				j = len(scs)
 			}
 			if err := runRound(scs[i:j], *nodes, *numConns, *nclients, *workers, *out, st, *dropRate, int64(k), *maxDelay,
-				roundOpts{compression: *compression, restarts: *restarts, addNode: *addNode, lateAddNode: *lateAddNode, evict: *evict, bigEvery: *bigEvery, burstsForwarded: *burstsForwarded, stallDrops: *stallDrops, slowReaders: *slowReaders, nonReaders: *nonReaders, stallMs: *stallMs, holdMs: *holdMs, override: *override, noDrops: *noDrops, idleClose: *idleClose, preCompression: *preCompression, postCompression: *postCompression, churn: *churn, localBursts: *localBursts}); err != nil {
+				roundOpts{compression: *compression, restarts: *restarts, addNode: *addNode, lateAddNode: *lateAddNode, evict: *evict, bigEvery: *bigEvery, burstsForwarded: *burstsForwarded, idemGraph: *idemGraph, stallDrops: *stallDrops, slowReaders: *slowReaders, nonReaders: *nonReaders, stallMs: *stallMs, holdMs: *holdMs, override: *override, noDrops: *noDrops, idleClose: *idleClose, preCompression: *preCompression, postCompression: *postCompression, churn: *churn, localBursts: *localBursts}); err != nil {
 				return err
 			}
 		}
